@@ -25,6 +25,7 @@ class Executor:
         self.pool = self.world["pool"]
         self.objs = {}
         self.membranes = {}
+        self.loaded = {}      # load op id -> object returned by the library (kept for "load, then save again")
 
     def describe(self):
         return {"pool": len(self.pool)}
@@ -151,7 +152,13 @@ class Executor:
     # ---- ops ---------------------------------------------------------------------------
     def prepare(self, op):
         if "obj" in op:
+            if op.get("op") == "set_fits":
+                self.obj(op["fits"][0]); self.obj(op["fits"][1])
             return self.obj(op["obj"])
+        if "from_load" in op:
+            if op["from_load"] not in self.loaded:
+                raise LookupError("object of load op %r is not in this session" % (op["from_load"],))
+            return self.loaded[op["from_load"]]
         return None
 
     def _p(self, rel):
@@ -159,14 +166,26 @@ class Executor:
 
     def execute(self, op, obj):
         k = op["op"]
+        if k == "set_fits":
+            # a user action, not a library call: assign fitted functions to a model held by the session
+            obj.permeance_fits = (self.obj(op["fits"][0]), self.obj(op["fits"][1]))
+            return {"kind": "ok"}
+        before = build.view_process(obj) if k == "save_process" else None     # the model as it is when save() is called
         try:
             res = self._call(k, op, obj)
         except Exception as e:
             return {"kind": "exc", "exc": type(e).__name__, "msg": str(e)[:300]}
         # views are harness code: an exception here is a harness error, not a library outcome
         out = {"kind": "ok"}
+        if k in ("load_curve", "load_fn", "load_cond") and op.get("id") is not None:
+            self.loaded[op["id"]] = res.diffusion_curves[0] if k == "load_curve" else res
         if k in ("save_process", "load_process"):
             out["view"] = build.view_process(res)
+            if before is not None:
+                if before["fits"] is None:
+                    before["fits"] = out["view"]["fits"]      # save() documents that it fills in constant functions when there are none
+                out["view_after_save"] = out["view"]
+                out["view"] = before
         elif k == "save_curve":
             out["view"] = build.view_curve(res)
         elif k == "load_curve":
